@@ -278,8 +278,58 @@ def combine(db, chk):
     chk.ob(R, "ready-before-combine", okw, "each present input is awaited (wait_ready) before the mask is initialised (awaited: %s)" % sorted(awaited), body.loc())
 
 
+def _field_reads(x, names, out):
+    if isinstance(x, dict):
+        if x.get("f") in names:
+            out.add(x["f"])
+        for v in x.values():
+            _field_reads(v, names, out)
+    elif isinstance(x, list):
+        for v in x:
+            _field_reads(v, names, out)
+
+
+MASK_OWNER = "lance-core/src/utils/mask"
+
+
+def mask_taken_whole(db, chk):
+    """A RowIdMask means `allow_list minus block_list` (the deletion mask lives in the block list, the filter result in the
+    allow list once combined): a consumer outside the mask module that looks into one list has to look into the other too,
+    or go through the mask's own API (selected / iter_ids / max_len ...)."""
+    R = "INV-mask-whole"
+    chk.rule(R, "a function (with its closures) outside lance_core::utils::mask that reads RowIdMask.allow_list also reads "
+                ".block_list and vice versa; KNN result ids taken from the pre-filter come through RowIdMask::iter_ids")
+    roots = {}
+    for f in db.fns.values():
+        if f.focus and MASK_OWNER not in f.file:
+            roots.setdefault(f.root().id, f.root())
+    seen = 0
+    for root in sorted(roots.values(), key=lambda r: r.path):
+        got = set()
+        for g in root.family():
+            if g.focus:
+                _field_reads(g.blocks, ("allow_list", "block_list"), got)
+        if not got:
+            continue
+        if ".rs" in root.file and root.r.get("test"):
+            continue
+        seen += 1
+        chk.analysed(root)
+        chk.ob(R, "both-lists:%s" % root.path, got == {"allow_list", "block_list"},
+               "%s reads %s of a row-id mask directly" % (root.path, sorted(got)), root.loc())
+    chk.floor(R, "functions looking inside a RowIdMask", seen, 2)
+    knn = [f for f in db.fns.values() if f.focus and f.file.endswith("io/exec/knn.rs")]
+    chk.floor(R, "functions of io/exec/knn.rs analysed", len(knn), 20)
+    late = [f for f in knn if "ANNIvfSubIndexExec::late_search" in f.path]
+    users = [(g, b, t) for g in late for b, t in calls(g, "RowIdMask::iter_ids")]
+    chk.ob(R, "late-search-shortcut-ids", len(users) >= 1,
+           "late_search's fewer-than-k shortcut enumerates the combined mask with RowIdMask::iter_ids (%d call(s))" % len(users),
+           late[0].loc() if late else None)
+
+
 def run(db, chk):
     sorted_positions(db, chk)
     deletion_mask(db, chk)
     combine(db, chk)
+    mask_taken_whole(db, chk)
     chk.assume("RowIdMask & / from_block / from_allowed and RowIdSequence::mask on ascending positions are correct (C21 decides the mask algebra)")
